@@ -812,10 +812,21 @@ class Unparser:
         self.prog = prog
         self.lines = []
         self.style = style or {}
+        self.lineinfo = []          # per line: statement kinds written on it, header line of the enclosing block
+        self.parent = 0
 
-    def emit(self, text, indent):
+    def emit(self, text, indent, kind='decl', extra=()):
         self.lines.append('  ' * indent + text)
+        self.lineinfo.append({'kinds': [kind] + list(extra), 'parent': self.parent})
         return len(self.lines)
+
+    def sub_block(self, blk, indent, header):
+        saved = self.parent
+        self.parent = header
+        try:
+            self.block(blk, indent)
+        finally:
+            self.parent = saved
 
     def simple_text(self, s):
         k = s['k']
@@ -869,53 +880,67 @@ class Unparser:
         k = s['k']
         st = self.simple_text(s)
         if st is not None:
-            s['ln'] = self.emit(st, ind)
+            s['ln'] = self.emit(st, ind, k)
             return
         if k == 'label':
-            s['ln'] = self.emit(s['n'] + ':', 0)
+            s['ln'] = self.emit(s['n'] + ':', 0, 'label')
         elif k == 'if' and s.get('line'):
             # single-line IF: every statement of it shares the line
             t = 'IF %s THEN %s' % (expr_text(s['arms'][0]['c']), ': '.join(self.simple_text(x) for x in s['arms'][0]['body']))
             if s['els']:
                 t += ' ELSE ' + ': '.join(self.simple_text(x) for x in s['els'])
-            s['ln'] = self.emit(t, ind)
+            s['ln'] = self.emit(t, ind, 'ifline', [x['k'] for x in s['arms'][0]['body'] + s['els']])
             s['arms'][0]['ln'] = s['ln']
             for x in s['arms'][0]['body'] + s['els']:
                 x['ln'] = s['ln']
         elif k == 'if':
-            s['ln'] = self.emit('IF %s THEN' % expr_text(s['arms'][0]['c']), ind)
+            s['ln'] = self.emit('IF %s THEN' % expr_text(s['arms'][0]['c']), ind, 'if')
             s['arms'][0]['ln'] = s['ln']
-            self.block(s['arms'][0]['body'], ind + 1)
+            self.sub_block(s['arms'][0]['body'], ind + 1, s['ln'])
+            saved = self.parent
+            self.parent = s['ln']
             for a in s['arms'][1:]:
-                a['ln'] = self.emit('ELSEIF %s THEN' % expr_text(a['c']), ind)
-                self.block(a['body'], ind + 1)
+                a['ln'] = self.emit('ELSEIF %s THEN' % expr_text(a['c']), ind, 'elseif')
+                self.sub_block(a['body'], ind + 1, a['ln'])
             if s['els'] or s.get('hasels'):
-                self.emit('ELSE', ind)
-                self.block(s['els'], ind + 1)
-            self.emit('END IF', ind)
+                el = self.emit('ELSE', ind, 'else')
+                self.sub_block(s['els'], ind + 1, el)
+            self.emit('END IF', ind, 'endif')
+            self.parent = saved
         elif k == 'for':
             t = 'FOR %s = %s TO %s' % (s['v']['n'], expr_text(s['from']), expr_text(s['to']))
             if s.get('hasstep'):
                 t += ' STEP ' + expr_text(s['step'])
-            s['ln'] = self.emit(t, ind)
-            self.block(s['body'], ind + 1)
-            s['nextln'] = self.emit('NEXT' + (' ' + s['v']['n'] if s.get('nextvar') else ''), ind)
+            s['ln'] = self.emit(t, ind, 'for')
+            self.sub_block(s['body'], ind + 1, s['ln'])
+            saved = self.parent
+            self.parent = s['ln']
+            s['nextln'] = self.emit('NEXT' + (' ' + s['v']['n'] if s.get('nextvar') else ''), ind, 'next')
+            self.parent = saved
         elif k == 'while':
-            s['ln'] = self.emit('WHILE ' + expr_text(s['c']), ind)
-            self.block(s['body'], ind + 1)
-            self.emit('WEND', ind)
+            s['ln'] = self.emit('WHILE ' + expr_text(s['c']), ind, 'while')
+            self.sub_block(s['body'], ind + 1, s['ln'])
+            saved = self.parent
+            self.parent = s['ln']
+            self.emit('WEND', ind, 'wend')
+            self.parent = saved
         elif k == 'do':
             t = 'DO'
             if s['pre']:
                 t += ' %s %s' % (s['pre'].upper(), expr_text(s['prec']))
-            s['ln'] = self.emit(t, ind)
-            self.block(s['body'], ind + 1)
+            s['ln'] = self.emit(t, ind, 'do')
+            self.sub_block(s['body'], ind + 1, s['ln'])
             t = 'LOOP'
             if s['post']:
                 t += ' %s %s' % (s['post'].upper(), expr_text(s['postc']))
-            self.emit(t, ind)
+            saved = self.parent
+            self.parent = s['ln']
+            self.emit(t, ind, 'loop')
+            self.parent = saved
         elif k == 'select':
-            s['ln'] = self.emit('SELECT CASE ' + expr_text(s['e']), ind)
+            s['ln'] = self.emit('SELECT CASE ' + expr_text(s['e']), ind, 'select')
+            saved = self.parent
+            self.parent = s['ln']
             for c in s['cases']:
                 cl = []
                 for x in c['cl']:
@@ -925,11 +950,12 @@ class Unparser:
                         cl.append('%s TO %s' % (expr_text(x['lo']), expr_text(x['hi'])))
                     else:
                         cl.append('IS %s %s' % (OPTXT[x['o']], expr_text(x['v'])))
-                c['ln'] = self.emit('CASE ' + ', '.join(cl), ind)
-                self.block(c['body'], ind + 1)
-            self.emit('CASE ELSE', ind)
-            self.block(s['els'], ind + 1)
-            self.emit('END SELECT', ind)
+                c['ln'] = self.emit('CASE ' + ', '.join(cl), ind, 'case')
+                self.sub_block(c['body'], ind + 1, c['ln'])
+            ce = self.emit('CASE ELSE', ind, 'caseelse')
+            self.sub_block(s['els'], ind + 1, ce)
+            self.emit('END SELECT', ind, 'endselect')
+            self.parent = saved
         else:
             raise ValueError(k)
 
@@ -958,9 +984,12 @@ class Unparser:
                     ps.append('%s AS %s' % (q['n'], q['rec']))
                 else:
                     ps.append(q['n'])
-            self.emit('%s %s%s' % (pr['kind'].upper(), pr['n'], ' (' + ', '.join(ps) + ')' if ps else ''), 0)
-            self.block(pr['body'], 1)
-            pr['endln'] = self.emit('END ' + pr['kind'].upper(), 0)
+            hl = self.emit('%s %s%s' % (pr['kind'].upper(), pr['n'], ' (' + ', '.join(ps) + ')' if ps else ''), 0, pr['kind'])
+            pr['ln'] = hl
+            self.sub_block(pr['body'], 1, hl)
+            self.parent = hl
+            pr['endln'] = self.emit('END ' + pr['kind'].upper(), 0, 'end' + pr['kind'])
+            self.parent = 0
         return '\n'.join(self.lines) + '\n'
 
 
@@ -1047,3 +1076,12 @@ def generate(seed, size=14, depth=3, wide=True, features=None):
     prog = g.program(wide=wide)
     text = Unparser(prog).text()
     return prog, text, strip_for_tlc(prog)
+
+
+def generate_info(seed, size=14, depth=3, wide=True, features=None):
+    """like generate(), plus the per-line facts of the unparser (statement kinds, enclosing block)"""
+    g = Gen(seed, size=size, depth=depth, features=features)
+    prog = g.program(wide=wide)
+    u = Unparser(prog)
+    text = u.text()
+    return prog, text, strip_for_tlc(prog), u.lineinfo
